@@ -13,7 +13,7 @@ REAL = ["train_* routines", "soft_target_net_update / hard_target_net_update", "
 STUB = ["environment (SimEnv)", "sampler", "logger (ProbeLogger)"]
 ASSUMPTIONS = ["targets created inside a routine are observable from their first record_epoch; earlier only frame conditions on harness-held modules apply",
                "float32 Polyak recomputation agrees with the library to 4e-6 relative"]
-TIERS = {"quick": {"runs": 126}, "thorough": {"runs": 2000}}
+TIERS = {"quick": {"runs": 162}, "thorough": {"runs": 2400}}
 REQUIRED = ["soft_updates_checked", "hard_updates_checked", "tau_0", "tau_1", "online_unchanged_by_target_update", "module_primitive_updates"]
 REQUIRED_QUICK = ["soft_updates_checked", "hard_updates_checked"]
 CHUNK = 24  # TrainSim plans per fresh worker process
@@ -109,7 +109,35 @@ def execute_modules(plan):
     return res
 
 
+BASE = {"quick": 126, "thorough": 2000}  # plans below these indices are exactly those of the earlier tiers (additive extension)
+
+
+def make_supplied_target_plan(rng):
+    """Supplied targets that differ from the online networks (restore from an older state), optionally only one of the two
+    supplied; fresh call or resume chain. A spurious copy / re-clone of a target is only visible when target != online."""
+    name = rng.choice(["ddpg", "td3", "td3", "td3_lap", "sac", "nature_dqn", "ddqn", "ddqn", "ddqn_per"])
+    plan = trainplan.base_plan(rng, PROPERTY, CLAUSES, name, T=rng.choice([14, 20, 28]))
+    plan["monitor"] = True
+    plan["logger"] = True
+    plan["supply_targets"] = True
+    plan["perturb_targets"] = rng.choice([0.5, 0.9, 1.5])
+    c = plan["cfg"]
+    c["learning_starts"] = rng.choice([2, 4, 6])
+    if "batch_size" in c and name in ("nature_dqn", "ddqn", "ddqn_per"):
+        c["batch_size"] = rng.choice([3, 4])
+        c["target_update_frequency"] = rng.choice([1, 2, 3, 5])
+    if name in ("ddpg", "td3", "td3_lap"):
+        plan["supply_only"] = rng.choice([None, "q", "policy"])
+    if rng.random() < 0.4 and trainsim.ADAPTERS[name].has_global_step:
+        T = plan["chain"][0]["total_timesteps"]
+        cut = rng.randint(max(2, T // 3), T - 2)
+        plan["chain"] = [{"total_timesteps": cut, "total_episodes": None}, {"total_timesteps": T, "total_episodes": None}]
+    return plan
+
+
 def make_plan(rng, tier, index):
+    if index >= BASE.get(tier, 10**9):
+        return make_supplied_target_plan(rng)
     if index % 7 == 5:
         return make_module_plan(rng)
     if index % 7 == 6:
